@@ -13,8 +13,11 @@ What is mirrored (code as written, after the repairs committed in /repo):
   * `methodReturnReceived`, `errorReceived`,
     `_cbCvtReply`                            client.py   -> `complete`, `cvtReply`
   * `BusProtocol.rawDBusMessageReceived`,
-    `Bus.messageReceived`, `Bus.sendMessage` bus.py      -> `busStep` (sender := true unique name, forward to the
-                                                            destination's connection, unknown destination: logged, dropped)
+    `Bus.messageReceived`, `Bus.sendMessage` bus.py      -> `busStep` (sender := true unique name; the body is forwarded
+                                                            exactly as received - repair 84eeaa3 = fixes/C11-01, the
+                                                            unrepaired step is `busStepOld` in Net/OldBus.lean; a unicast
+                                                            message goes to the destination's connection only - C14's
+                                                            repair 8a90657; unknown destination: logged, dropped)
   * `DBusObjectHandler.handleMethodCallMessage`
     with `send_reply` / `send_error`         objects.py  -> `check`, `replyOf`, `dispatch`, `resolveStep`
 
